@@ -91,6 +91,11 @@ def file_for(kind, flavour):
         mv('M_all', 'f8', ('x',), (3,), 'fill_value', -999., slice(None))
         # a missing_value attribute AND a different fill value on the same variable
         mv('M_both', 'f4', ('t', 'x'), (2, 3), 'both', -99., 2)
+        # a masked variable that is also packed (scale_factor / add_offset)
+        mv('M_pack', 'f8', ('t', 'x'), (2, 3), 'fill_value', -999., 4)
+        f.vars['M_pack'].data = f.vars['M_pack'].data * 0.5 + 10.
+        f.vars['M_pack'].attrs['scale_factor'] = 0.5
+        f.vars['M_pack'].attrs['add_offset'] = 10.
         f.vars['plain'] = RVar(('x',), ramp('f4', (3,), 5), attrs={'units': 'm'})
         f.attrs['title'] = 'masked'
     elif kind == 'attrs':
@@ -99,6 +104,7 @@ def file_for(kind, flavour):
             ('a_iarr', np.array([1, 2, 3], dtype='i4')), ('a_farr', np.array([1.5, 2.5], dtype='f4')),
             ('a_darr', np.array([0.1, 0.2, 0.3], dtype='f8')), ('a_bool', True),
             ('a_npfloat', np.float32(1.25)), ('a_npint', np.int16(12)), ('a_i1arr', np.array([5], dtype='i1')),
+            ('a_unicode', u'\u00b5g/m\u00b3 caf\u00e9'),
         ])
         for k, v in vals.items():
             f.attrs[k] = v
@@ -107,6 +113,9 @@ def file_for(kind, flavour):
         f.vars['A'] = RVar(('t', 'z', 'x'), ramp('f4', (2, 1, 3), 1), attrs=va)
         f.vars['B'] = RVar(('x',), ramp('i4', (3,), 9), attrs=OrderedDict([('long_name', 'B var'),
                                                                          ('valid_range', np.array([0., 100.]))]))
+        # packing attributes: the values the file presents are the unpacked ones before and after
+        f.vars['P'] = RVar(('t', 'x'), ramp('f8', (2, 3), 40) * 0.5 + 10., attrs=OrderedDict([
+            ('units', 'K'), ('scale_factor', 0.5), ('add_offset', 10.)]))
     return f
 
 
